@@ -176,6 +176,10 @@ def obligations(ctx, cfg):
     # subscription is left marked deleted with its consumers never told)
     from props.actor_steps import ReceiveDropped
     obs.append(ReceiveDropped(ctx, 'Delete', id_='C12.f-delete-completes-without-its-caller'))
+    from props.races import RequestTerminates
+    rt = RequestTerminates(ctx, 'delete', lambda c, p_: [])
+    rt.id = 'C12.g-delete-returns-and-ends-the-actor-task'
+    obs.append(rt)
     from props.C07 import TopicActorLoop
     obs += [TopicActorLoop(ctx, v, 'C12.e-topic-actor-serves') for v in ('Delete', 'RemoveSubscription')]
     if cfg['tier'] == 'thorough':
